@@ -27,8 +27,9 @@ static char *menu[] = {
 	"$d",			/* 11: deletes behind (or at the end of) the range */
 	"s/^/V/|$d",		/* 12 */
 	".,+1g/2/s/^/W/",	/* 13: nested global with a range of its own */
+	"-2s/^/>/|s/$/!/",	/* 14: the first command of the list fails on the first two lines; the second still runs and the global goes on */
 };
-#define NMENU 14
+#define NMENU 15
 struct ml { int id; char t[12]; };
 static struct ml L[NL * 2 + 40];
 static int ln;
@@ -37,6 +38,7 @@ static void mins(int i, int id, const char *t) { int k; for (k = ln; k > i; k--)
 static int mfind(int id) { int i; for (i = 0; i < ln; i++) if (L[i].id == id) return i; return -1; }
 static void msub(int i, char from, char to) { char *p = strchr(L[i].t, from); if (p) *p = to; }
 static void mprefix(int i, char c) { memmove(L[i].t + 1, L[i].t, strlen(L[i].t) + 1); L[i].t[0] = c; }
+static void msuffix(int i, char c) { int n = strlen(L[i].t); L[i].t[n] = c; L[i].t[n + 1] = 0; }
 /* run menu command m with current line c on the model; returns 1 if the command fails */
 static int mrun(int m, int c)
 {
@@ -64,6 +66,7 @@ static int mrun(int m, int c)
 		if (strchr(L[c].t, '2')) mprefix(c, 'W');
 		if (strchr(L[c + 1].t, '2')) mprefix(c + 1, 'W');
 		return 0;
+	case 14: if (c >= 2) mprefix(c - 2, '>'); msuffix(c, '!'); return 0;
 	}
 	return 1;
 }
